@@ -497,27 +497,56 @@ pub fn worker(w: &mut Worker) {
         }
     }
 
-    // (d) include cycles (a file that includes itself, and a cycle of two files)
-    for variant in 0..2usize {
-        if !w.take() {
-            continue;
-        }
-        let cj = json!({"kind": "include-cycle", "files": variant + 1});
-        w.begin(|| cj.clone());
-        let d = work.join("cycle");
-        let _ = std::fs::create_dir_all(&d);
-        if variant == 0 {
-            std::fs::write(d.join("a.ds"), "x = set 1\n!include_files ./a.ds\n").unwrap();
-        } else {
-            std::fs::write(d.join("a.ds"), "x = set 1\n!include_files ./b.ds\n").unwrap();
-            std::fs::write(d.join("b.ds"), "!include_files ./a.ds\ny = set 2\n").unwrap();
-        }
-        let path = d.join("a.ds").to_string_lossy().to_string();
-        let r = guarded(|| duckscript::parser::parse_file(&path));
-        w.add_transitions(1);
-        match r {
-            Err(p) => w.fail("panic:include-cycle", &p, cj),
-            Ok(_) => w.pass(true, hash64(&("cycle", variant))),
+    // (d) include cycles: 1..3 files in a ring x the spellings of the directive the parser accepts (blanks
+    // and a tab behind the bang) x the ways to write the path of the next file (./name, bare name,
+    // absolute, through a sub directory and back, a different way at every hop) x what else the files
+    // hold (plain text, a byte that is not UTF-8 in a comment, a byte order mark, CRLF line ends, the
+    // directive as the last line without a line end): parse_file comes back, with instructions or an error
+    {
+        let spellings = ["!include_files", "! include_files", "!  include_files", "!\tinclude_files"];
+        let contents: [(&str, &[u8], &[u8]); 5] = [("plain", b"x = set 1\n", b"\ny = set 2\n"), ("not-utf8", b"# caf\xe9\nx = set 1\n", b"\ny = set 2\n"), ("bom", b"\xef\xbb\xbfx = set 1\n", b"\n"), ("crlf", b"x = set 1\r\n", b"\r\ny = set 2\r\n"), ("last-line", b"x = set 1\n", b"")];
+        for ring in 1..=3usize {
+            for (si, spelling) in spellings.iter().enumerate() {
+                for path_form in 0..5usize {
+                    for (cname, head, tail) in contents.iter() {
+                        if !w.take() {
+                            continue;
+                        }
+                        let cj = json!({"kind": "include-cycle", "files": ring, "spelling": spelling, "path_form": path_form, "content": cname});
+                        w.begin(|| cj.clone());
+                        let d = work.join("cycle");
+                        let _ = std::fs::remove_dir_all(&d);
+                        let _ = std::fs::create_dir_all(d.join("sub"));
+                        for k in 0..ring {
+                            let next = format!("f{}.ds", (k + 1) % ring);
+                            let form = if path_form == 4 { (k + si) % 4 } else { path_form };
+                            let path = match form {
+                                0 => format!("./{}", next),
+                                1 => next.clone(),
+                                2 => d.join(&next).to_string_lossy().to_string(),
+                                _ => format!("./sub/../{}", next),
+                            };
+                            let mut bytes: Vec<u8> = head.to_vec();
+                            bytes.extend_from_slice(format!("{} {}", spelling, path).as_bytes());
+                            bytes.extend_from_slice(tail);
+                            std::fs::write(d.join(format!("f{}.ds", k)), bytes).unwrap();
+                        }
+                        // entered at a file of the ring, and through a plain file in front of it
+                        std::fs::write(d.join("entry.ds"), "e = set 1\n!include_files ./f0.ds\n").unwrap();
+                        let path = d.join("f0.ds").to_string_lossy().to_string();
+                        let entry = d.join("entry.ds").to_string_lossy().to_string();
+                        let r = guarded(|| {
+                            let _ = duckscript::parser::parse_file(&path);
+                            duckscript::parser::parse_file(&entry)
+                        });
+                        w.add_transitions(2);
+                        match r {
+                            Err(p) => w.fail("panic:include-cycle", &p, cj),
+                            Ok(_) => w.pass(true, hash64(&("cycle", ring, *cname))),
+                        }
+                    }
+                }
+            }
         }
     }
     // the two big sweeps come last: when a loaded machine reaches the wall cap, the small families
@@ -642,7 +671,7 @@ pub fn crash_sig(case: &Value, kind: &str) -> String {
     }
 }
 
-pub const RULE: &str = "(a) every registered command of the standard library (discovered at run time; excluded: read, sleep, exec, spawn, exit, watchdog, everything under std::net, test_directory/test_file, cd, temp_file/temp_dir) x every argument tuple up to the arity bound from a 28-value pool {empty, NaN, a byte array that is not UTF-8 (a character cut off at its end), a map whose keys include 'a=b', the empty key and a key with a line break, a lone line break, multi-byte text at two byte alignments, a, 'a b', j (the name of a decoded JSON array variable set whose length entry is 99999999999), multi-byte, -1, 0, 1, 2.5, 20-digit number, i64::MAX, i64::MIN, live array/map/set/byte-array handle, an array containing its own handle, a map whose child array points back to it, an array holding a map that holds itself (a cycle not through the root), released handle, -r, text with a line break, a flag (each of the 18 option flags the library's commands know)}, each on a freshly prepared context in a scratch working directory that is reset before every case to the tree {file a, file 0, directory 1 with a file} (the quick tier adds every 'flag operand operand' triple); (b) 15 two-step histories (use after release, push/pop --copy of undefined and repeated names, removed or shadowed commands used by library scripts); (c) every script of up to n lines over 24 awkward lines (unmatched end/else/elseif/return, fn without name or end, for without array, goto to a missing label, goto loops, calls of undefined functions, ...) run with every command counted and the halt flag raised after 400 command entries; (f) a user function and an alias of it as the condition of if / elseif / while / not (and called plainly) for seven ways the function can end; (g) aliases that stand for themselves directly and through one another, and user functions invoked through eval; (d) a file that includes itself and a two-file include cycle; (e) for-in loops whose body clears, pops, removes from, releases, grows, replaces or unsets the array being iterated (sizes 0..3, three body shapes). Oracle: control returns with Ok or Err; a panic is caught and reported; an abort (stack overflow) or a hang (more than 4 s of CPU time, or 40 s of wall time, without returning) kills the worker process, is pinned to the case in flight by the supervisor and reported. (i) eleven commands that write or read a family of variables under a name (json_parse, json_encode, read_properties, unset_all_vars --prefix ...) run twice after one of ten members of that family was set to one of twelve awkward values (sizes near 2^64, negative, fractional, NaN, empty), and json_parse after a json_parse whose keys spell such names. (j) functions in condition position whose body does not get to its return (unknown command, three failing commands, goto to a missing label) directly, one call down, scoped inside loops, called again afterwards";
+pub const RULE: &str = "(a) every registered command of the standard library (discovered at run time; excluded: read, sleep, exec, spawn, exit, watchdog, everything under std::net, test_directory/test_file, cd, temp_file/temp_dir) x every argument tuple up to the arity bound from a 28-value pool {empty, NaN, a byte array that is not UTF-8 (a character cut off at its end), a map whose keys include 'a=b', the empty key and a key with a line break, a lone line break, multi-byte text at two byte alignments, a, 'a b', j (the name of a decoded JSON array variable set whose length entry is 99999999999), multi-byte, -1, 0, 1, 2.5, 20-digit number, i64::MAX, i64::MIN, live array/map/set/byte-array handle, an array containing its own handle, a map whose child array points back to it, an array holding a map that holds itself (a cycle not through the root), released handle, -r, text with a line break, a flag (each of the 18 option flags the library's commands know)}, each on a freshly prepared context in a scratch working directory that is reset before every case to the tree {file a, file 0, directory 1 with a file} (the quick tier adds every 'flag operand operand' triple); (b) 15 two-step histories (use after release, push/pop --copy of undefined and repeated names, removed or shadowed commands used by library scripts); (c) every script of up to n lines over 24 awkward lines (unmatched end/else/elseif/return, fn without name or end, for without array, goto to a missing label, goto loops, calls of undefined functions, ...) run with every command counted and the halt flag raised after 400 command entries; (f) a user function and an alias of it as the condition of if / elseif / while / not (and called plainly) for seven ways the function can end; (g) aliases that stand for themselves directly and through one another, and user functions invoked through eval; (d) a file that includes itself and a two-file include cycle; (e) for-in loops whose body clears, pops, removes from, releases, grows, replaces or unsets the array being iterated (sizes 0..3, three body shapes). Oracle: control returns with Ok or Err; a panic is caught and reported; an abort (stack overflow) or a hang (more than 4 s of CPU time, or 40 s of wall time, without returning) kills the worker process, is pinned to the case in flight by the supervisor and reported. (i) eleven commands that write or read a family of variables under a name (json_parse, json_encode, read_properties, unset_all_vars --prefix ...) run twice after one of ten members of that family was set to one of twelve awkward values (sizes near 2^64, negative, fractional, NaN, empty), and json_parse after a json_parse whose keys spell such names. (j) functions in condition position whose body does not get to its return (unknown command, three failing commands, goto to a missing label) directly, one call down, scoped inside loops, called again afterwards Include cycles by rule: rings of 1..3 files x 4 spellings of the directive (blanks and a tab behind the bang) x 5 ways to write the path of the next file x 5 kinds of file content (plain, a byte that is not UTF-8, byte order mark, CRLF, directive on a last line without line end), entered at a file of the ring and through a plain file in front of it: parse_file comes back.";
 pub const ASSUMPTIONS: &[&str] = &["values that would request huge allocations are not in the pool (allocation failure aborts by design of Rust)", "loop constructs are allowed to loop: they are ended through the halt flag, which is the embedder's documented way"];
 pub const EXHAUSTIVE: bool = true;
 pub const WALL_CAP_S: (u64, u64) = (58, 1700);
